@@ -21,15 +21,31 @@ POINT_LEVELS = {
 ALTERNATIVES = {"bignKeyUnwrap": "wwEq("}   # x-only decompression: y^2 == x^3+ax+b recomputed and compared
 
 
-def header_matches_for(name):
+def header_matches_for(name, recovered=None):
     def header_matches(fs):
         """the accepted comparison is the one the caller's header argument (`name`) selects: a non-null header was
-        compared (memEq(header, ..) accepted); the all-zero test stands in only for header == 0"""
+        compared (memEq(header, ..) accepted); the all-zero test stands in only for header == 0.  What is compared is
+        the header recovered from the token (`recovered`: the second argument of the wide-block decryption step)."""
         null = ("cmp", False, name) in fs or ("cmp", True, "(%s==0)" % name) in fs
-        eq = any(x[0] == "T" and x[1].startswith("memEq(%s," % name) for x in fs)
-        zero = any(x[0] == "T" and x[1].startswith("memIsZero(") for x in fs)
+        if recovered is None:
+            eq = any(x[0] == "T" and x[1].startswith("memEq(%s," % name) for x in fs)
+            zero = any(x[0] == "T" and x[1].startswith("memIsZero(") for x in fs)
+        else:
+            eq = any(x[0] == "T" and (x[1].startswith("memEq(%s,%s," % (name, recovered)) or
+                                      x[1].startswith("memEq(%s,%s," % (recovered, name))) for x in fs)
+            zero = any(x[0] == "T" and x[1].startswith("memIsZero(%s," % recovered) for x in fs)
         return zero if null else eq
     return header_matches
+
+
+def recovered_header(f):
+    """canonical name of the buffer the token's header half is decrypted into"""
+    from . import vp
+    cn = vp.Canon(f)
+    for c in ir.calls(f.body):
+        if c.get("callee") in ("beltWBLStepD2", "beltKWPStepD2") and len(c["a"]) >= 2:
+            return cn(c["a"][1])
+    return None
 
 
 def run(tier, seed=0):
@@ -49,7 +65,10 @@ def run(tier, seed=0):
     ku = prog.funcs.get("bignKeyUnwrap")
     if ku is None or len(ku.params) < 6:
         raise AnalysisBroken("bignKeyUnwrap(key, params, token, len, header, privkey) vanished: the header-comparison obligation must be re-anchored")
-    header_matches = header_matches_for(ku.params[4]["n"])      # the header by position: a rename does not matter
+    rec_hdr = recovered_header(ku)
+    if rec_hdr is None:
+        raise AnalysisBroken("bignKeyUnwrap: the wide-block decryption step (beltKWPStepD2) vanished")
+    header_matches = header_matches_for(ku.params[4]["n"], rec_hdr)      # the header by position: a rename does not matter
     vprules.check_must(prog, res, "R02.5-accept-only-verified", "bignKeyUnwrap",
                        [("token length test", CMP(False, r"len<")), ("x coordinate reduced (qrFrom)", T("qrFrom(")),
                         ("curve membership y^2 == x^3+ax+b (wwEq)", T("wwEq(")),
